@@ -287,3 +287,32 @@ def read_convert_read(q, u, v):
     q << v
     b = q >> u
     return (a, b, q.unit_value)
+
+
+# ---------------------------------------------------------------------------------------
+# C14: clamped piecewise-linear interpolation
+@opaque
+def pl_sorted_ok(xp: 'list', yp: 'list', n: int, v, y):
+    """y is the clamped piecewise-linear interpolant, at v, of the points (xp[k], yp[k]), k < n, given
+    in non-decreasing xp order"""
+    if v <= xp[0]:
+        return eq(y, yp[0])
+    if v >= xp[n - 1]:
+        return eq(y, yp[n - 1])
+    return exists(0, n - 1, lambda m: xp[m] <= v < xp[m + 1] and
+                  eq(y, yp[m] + (yp[m + 1] - yp[m]) / (xp[m + 1] - xp[m]) * (v - xp[m])))
+
+
+def pl_points_ok(pts, n, v, y):
+    """the same interpolant defined without reference to any order of the points pts[k] (objects with
+    .Mach and .BC): below the lowest / above the highest Mach it is that point's BC; otherwise the line
+    through two points p, q that are neighbours in Mach (no point strictly between them) with
+    Mach_p <= v < Mach_q"""
+    lowest = exists(0, n, lambda p: v <= pts[p].Mach and eq(y, pts[p].BC) and
+                    forall(0, n, lambda k: pts[p].Mach <= pts[k].Mach))
+    highest = exists(0, n, lambda p: v >= pts[p].Mach and eq(y, pts[p].BC) and
+                     forall(0, n, lambda k: pts[k].Mach <= pts[p].Mach))
+    between = exists(0, n, lambda p: exists(0, n, lambda q: pts[p].Mach <= v < pts[q].Mach and
+                     forall(0, n, lambda k: pts[k].Mach <= pts[p].Mach or pts[k].Mach >= pts[q].Mach) and
+                     eq(y, pts[p].BC + (pts[q].BC - pts[p].BC) / (pts[q].Mach - pts[p].Mach) * (v - pts[p].Mach))))
+    return lowest or highest or between
